@@ -1229,6 +1229,9 @@ def run(ctx: Ctx) -> Result:
         remote_completion_cases(res)
         if ctx.replay is not None:
             return res
+    if ctx.replay is not None and isinstance(ctx.replay.get('replay'), dict) and ctx.replay['replay'].get('outage'):
+        outage_handler_cases(res)
+        return res
     rp = ctx.replay['replay'] if ctx.replay is not None else None
     rp_tie = isinstance(rp, dict) and rp.get('handler') in ('mt', 'mp')     # a replay of the asynchronous tie family
     if ctx.replay is not None:
@@ -1281,6 +1284,8 @@ def run(ctx: Ctx) -> Result:
         async_handler_cases(ctx, res)
     if ctx.replay is None or (isinstance(rp, dict) and rp.get('feeders')):
         feeders_last_slot(res)
+    if ctx.replay is None:
+        outage_handler_cases(res)
     return res
 
 
@@ -1382,6 +1387,90 @@ def async_handler_cases(ctx: Ctx, res: Result):
                 res.violations.append(Violation(
                     'stranded', f"multithreading handler ({threads} threads, times {cfg[:4]}): {want} executions but {len(actions)} action "
                     f"events after 20 further engine.update() calls; {handler.size()} responses left in the handler queue", case))
+
+
+def outage_handler_cases(res: Result):
+    """after an error: the action fails INSIDE the pool for a while (an outage of whatever it talks to), then works again.
+    What the failed executions leave behind must not keep later, perfectly ordinary completed runs from being served:
+    each of them still gives one complex event, one execution with that event, one action event, and empty queues.  Real
+    thread pool, bounded and unbounded response queue, as many failures as the bound and more."""
+    import time as _time
+    from bobocep.cep.action.handler import BoboActionHandlerMultithreading
+    from bobocep.cep.engine.producer.pubsub import BoboProducerSubscriber
+    from bobocep.cep.phenom.pattern.builder import BoboPatternBuilder
+    from bobocep.cep.phenom.phenom import BoboPhenomenon
+    from bobocep.setup.simple import BoboSetupSimple
+    for max_size in (0, 2, 3):
+        for n_fail in (2, 3, 5):
+            state = {'down': True}
+            executed, attempts = [], []
+
+            class Flaky(BoboAction):
+                def execute(self, event):
+                    attempts.append(event.event_id)
+                    if state['down']:
+                        raise ConnectionError('service unavailable')
+                    executed.append(event)
+                    return True, len(executed)
+
+            class Rec(BoboProducerSubscriber, BoboForwarderSubscriber):
+                def __init__(self):
+                    self.cx, self.ac = [], []
+
+                def on_producer_update(self, event, local):
+                    self.cx.append(event)
+
+                def on_forwarder_update(self, event):
+                    self.ac.append(event)
+            pat = BoboPatternBuilder('p').followed_by(lambda e, h: e.data == 0).followed_by(lambda e, h: e.data == 1).generate()
+            handler = BoboActionHandlerMultithreading(threads=2, max_size=max_size)
+            eng = BoboSetupSimple(phenomena=[BoboPhenomenon('ph', [pat], action=Flaky('act'))], handler=handler).generate()
+            rec = Rec()
+            eng.producer.subscribe(rec)
+            eng.forwarder.subscribe(rec)
+            case = {'outage': True, 'max_size': max_size, 'failures': n_fail}
+            res.add_case(case, nontrivial=True)
+            res.count('outage_handler_cases')
+            raised, bad = None, None
+
+            def one_run():
+                for d in (0, 1):
+                    eng.receiver.add_data(d)
+                    for _ in range(8):
+                        eng.update()
+            try:
+                for k in range(n_fail):
+                    one_run()
+                    t0 = _time.time()
+                    while len(attempts) < k + 1 and _time.time() - t0 < 5:
+                        _time.sleep(0.002)
+                _time.sleep(0.05)
+                state['down'] = False
+                for k in range(4):
+                    n_cx, n_ex, n_ac = len(rec.cx), len(executed), len(rec.ac)
+                    one_run()
+                    t0 = _time.time()
+                    while (len(executed) < n_ex + 1 or handler.size() + len(rec.ac) < n_ac + 1) and _time.time() - t0 < 3:
+                        _time.sleep(0.002)
+                    for _ in range(12):
+                        eng.update()
+                    got = (len(rec.cx) - n_cx, len(executed) - n_ex, len(rec.ac) - n_ac)
+                    if got != (1, 1, 1) or executed[-1] is not rec.cx[-1]:
+                        bad = (f"run {k + 1} after the outage gave {got[0]} complex event(s), {got[1]} execution(s), {got[2]} action event(s) "
+                               f"(one each expected; {n_fail} executions had failed in the pool before, response queue bound {max_size}, "
+                               f"responses waiting {handler.size()})")
+                        break
+            except Exception as e:   # noqa
+                raised = f'{e.__class__.__name__}: {e}'
+            finally:
+                state['down'] = False
+                handler.close()
+                handler.join()
+            if raised is not None:
+                res.violations.append(Violation('engine-raised', f"after {n_fail} executions that failed inside the pool (response queue bound "
+                                                f"{max_size}, {handler.size()} responses waiting) engine.update() raised on an ordinary run: {raised}", case))
+            elif bad is not None:
+                res.violations.append(Violation('execute-count', bad, case))
 
 
 def search(ctx: Ctx) -> Result:
